@@ -384,6 +384,25 @@ def wl_cms(ctx, rng, case):
         out = Counter()
         for _ in range(rng.randint(0, 25)):
             kk = rng.choice(keys)
+            if rng.random() < 0.08:
+                # a call the sketch REFUSES (an amount that is no integer, a hash list made for a deeper sketch): it is not part of the
+                # history the reference writer replays - the file must not show a trace of it
+                how = rng.choice(["float amount", "None amount", "deeper list to add_alt", "deeper list to remove_alt"])
+                if how == "float amount" and case.index % 6 == 1:
+                    how = "None amount"  # (next to a cell at its limit a float amount is clamped instead of refused - not a refusal to rely on)
+                try:
+                    if how == "float amount":
+                        s.add(kk, 2.0)
+                    elif how == "None amount":
+                        s.remove(kk, None)
+                    elif how == "deeper list to add_alt":
+                        s.add_alt(s.hashes(kk, depth + rng.randint(1, 3)), 3)
+                    else:
+                        s.remove_alt(s.hashes(kk, depth + rng.randint(1, 3)), 1)
+                    raise AssertionError(f"the sketch accepted a call it refuses on the unchanged tree ({how})")
+                except (TypeError, IndexError):
+                    ctx.count("cms_refused_calls_inside_the_history")
+                continue
             if out[kk] > 0 and rng.random() < 0.3:
                 n = rng.randint(1, out[kk])
                 s.remove(kk, n)
